@@ -16,6 +16,7 @@ import (
 	"go/types"
 	"math"
 	"math/big"
+	"strconv"
 	"strings"
 
 	"golang.org/x/tools/go/ssa"
@@ -426,7 +427,66 @@ func (w *Worker) eqVal(a, b Value) *Term {
 	panic(engineError{fmt.Sprintf("eqVal: cannot compare %T and %T", a, b)})
 }
 
+// canonInt reports whether s is the canonical decimal rendering of an int64/uint64.
+func canonInt(s string) (*big.Int, bool) {
+	v, ok := new(big.Int).SetString(s, 10)
+	if !ok || v.String() != s {
+		return nil, false
+	}
+	return v, true
+}
+
+func unmaterialised(s Str) bool { return s.tag != nil && s.b == nil && s.tag.mat == nil }
+
+// tagEq compares opaque number renderings without materialising them: the
+// canonical decimal rendering of integers is injective, and so is the
+// shortest rendering of floats up to NaN payloads (SMT = on floats).
+func (w *Worker) tagEq(a, b Str) (*Term, bool) {
+	ua, ub := unmaterialised(a), unmaterialised(b)
+	if !ua && !ub {
+		return nil, false
+	}
+	if ua && ub {
+		if a.tag.isFloat != b.tag.isFloat {
+			return nil, false
+		}
+		if a.tag.isFloat {
+			if a.tag.fmtC != b.tag.fmtC || a.tag.prec != b.tag.prec {
+				return nil, false
+			}
+			return newTerm("=", SBool, liftFloat(a.tag.fpOf), liftFloat(b.tag.fpOf)), true
+		}
+		return tEq(a.tag.intOf, b.tag.intOf), true
+	}
+	if ub {
+		a, b = b, a
+	}
+	// a opaque, b ordinary
+	cs, ok := b.concrete()
+	if !ok {
+		return nil, false
+	}
+	if a.tag.isFloat {
+		if a.tag.fmtC != 'f' && a.tag.fmtC != 0 || a.tag.prec != -1 {
+			return nil, false
+		}
+		f, err := strconv.ParseFloat(cs, 64)
+		if err != nil || strconv.FormatFloat(f, 'f', -1, 64) != cs {
+			return falseT, true
+		}
+		return newTerm("=", SBool, liftFloat(a.tag.fpOf), fpConstLit(f)), true
+	}
+	v, ok := canonInt(cs)
+	if !ok {
+		return falseT, true
+	}
+	return tEq(a.tag.intOf, intConstBig(v)), true
+}
+
 func (w *Worker) strEq(a, b Str) *Term {
+	if t, ok := w.tagEq(a, b); ok {
+		return t
+	}
 	a = w.cells(a)
 	b = w.cells(b)
 	if len(a.b) != len(b.b) {
